@@ -1265,3 +1265,10 @@ package router
 //@   props C18 C04
 //@   requires dealerInv(d)
 //@   sendsite answer wamp.ID : [id-of-the-best-match-or-zero] m == 0 || m in d.registrations
+
+//@ closure (b *broker) subEventHistory 1
+//@   on broker
+//@   props C20 C04
+//@   requires brokerInv(b) && brokerHist(b)
+//@   loop i < j
+//@     invariant [reverse-bounds] 0 <= i && j < len(filteredEvents)
